@@ -2,7 +2,7 @@
    Codes: 0 ok | 1 model/implementation mismatch | 2 property rejected on the implementation's
    observation | 3 both | 4 implementation panicked. *)
 From BV Require Import Base.Prelude Model.Block Model.ForkDB Model.Forkable Model.ForkableLookups
-  Spec.Consumer Spec.Universe Spec.ForkChoice Check.Fk_Check.
+  Spec.Consumer Spec.Universe Spec.ForkChoice Spec.C01_Spec Check.Fk_Check.
 Local Open Scope N_scope.
 
 Definition obs_trace (k : fk_case) : trace := map (fun o => (o_events o, o_result o)) (k_obs k).
@@ -26,6 +26,13 @@ Definition c01_prop (k : fk_case) : bool :=
   (c01_discipline_b (k_mode k) t && c01_refeed_b [] (k_hist k) t && c01_error_b (c_fail_at (k_cfg k)) 0 t).
 Definition c01_verdict (k : fk_case) : N := combine k (c01_prop k).
 Definition c01_verdicts (l : list fk_case) := nonzero (map c01_verdict l).
+
+(* cases that meet every hypothesis of c01_fixed_lib_partial (Properties/C01.v): counted in the evidence *)
+Definition c01_thm_scope (k : fk_case) : bool :=
+  match k_mode k, c_fail_at (k_cfg k) with
+  | LExcl r0, None => negb (c_incl (k_cfg k)) && filt_nu k && c01_fixed_scope_b r0 (k_hist k)
+  | _, _ => false
+  end.
 
 (* ---- C02 ---- *)
 Definition c02_in_scope (k : fk_case) : bool :=
